@@ -370,12 +370,12 @@ theorem seqApply_wf (cfg : Cfg) (t : Tab) (op : Op) (h : t.WF cfg) : (seqApply c
       have hgk := h g k
       simp only [List.mem_append, decls, List.mem_map, List.mem_range, Prod.mk.injEq, List.mem_singleton]
       constructor
-      · rintro (hm | ⟨j, hj, rfl, rfl⟩)
+      · rintro (hm | ⟨j, hj, h1, h2⟩)
         · have := hgk.mp hm; exact ⟨Or.inl this.1, this.2⟩
-        · exact ⟨Or.inr rfl, hj⟩
+        · subst h1; subst h2; exact ⟨Or.inr rfl, hj⟩
       · rintro ⟨hg | hg, hk⟩
         · exact Or.inl (hgk.mpr ⟨hg, hk⟩)
-        · exact Or.inr ⟨k, hk, hg.symm, rfl⟩
+        · subst hg; exact Or.inr ⟨k, hk, rfl, rfl⟩
 
 theorem seqRun_wf (cfg : Cfg) (ops : List Op) : (seqRun cfg ops).WF cfg := by
   suffices ∀ (ops : List Op) (t : Tab), t.WF cfg → (ops.foldl (fun t op => (seqApply cfg t op).1) t).WF cfg from
